@@ -704,7 +704,70 @@ fn json_box_tag_length(i: &Input) -> Outcome {
     fixed_len_verdict("DryocSecretBox tag from a JSON sequence", 16, tag, r)
 }
 
+/// x (any length): every combined-encoding decoder, for every container instantiation reachable on stable, accepts exactly
+/// the encodings that hold at least the fixed-length prefix, and re-encodes to the same bytes.
+fn from_bytes_min_length(i: &Input) -> Outcome {
+    use dryoc::types::StackByteArray;
+    let x = i.get("x");
+    fn judge(what: &str, min: usize, x: &[u8], r: Result<Vec<u8>, String>) -> Outcome {
+        match (x.len() >= min, r) {
+            (true, Ok(v)) => eq(&format!("{} then to_vec", what), x, &v),
+            (true, Err(e)) => fail("Ok", format!("Err({})", e), format!("{}: a {}-byte encoding (minimum {}) was rejected", what, x.len(), min)),
+            (false, Err(_)) => Ok(()),
+            (false, Ok(v)) => fail(
+                "Err (too short for the fixed-length prefix)",
+                format!("Ok, re-encodes as {}", hex(&v)),
+                format!("{}: a {}-byte encoding is shorter than the {}-byte fixed-length prefix but was accepted", what, x.len(), min),
+            ),
+        }
+    }
+    let e = |e: dryoc::Error| e.to_string();
+    judge("DryocSecretBox<Mac, Vec<u8>>::from_bytes", 16, x,
+        dryoc::dryocsecretbox::VecBox::from_bytes(x).map(|b| b.to_vec()).map_err(e))?;
+    judge("DryocSecretBox<Vec<u8>, Vec<u8>>::from_bytes", 16, x,
+        dryoc::dryocsecretbox::DryocSecretBox::<Vec<u8>, Vec<u8>>::from_bytes(x).map(|b| b.to_vec()).map_err(e))?;
+    judge("DryocBox<PublicKey, Mac, Vec<u8>>::from_bytes", 16, x,
+        dryoc::dryocbox::VecBox::from_bytes(x).map(|b| b.to_vec()).map_err(e))?;
+    judge("DryocBox<StackByteArray<32>, Vec<u8>, Vec<u8>>::from_bytes", 16, x,
+        dryoc::dryocbox::DryocBox::<StackByteArray<32>, Vec<u8>, Vec<u8>>::from_bytes(x).map(|b| b.to_vec()).map_err(e))?;
+    judge("DryocBox<PublicKey, Mac, Vec<u8>>::from_sealed_bytes", 48, x,
+        dryoc::dryocbox::VecBox::from_sealed_bytes(x).map(|b| b.to_vec()).map_err(e))?;
+    judge("DryocBox<StackByteArray<32>, Vec<u8>, Vec<u8>>::from_sealed_bytes", 48, x,
+        dryoc::dryocbox::DryocBox::<StackByteArray<32>, Vec<u8>, Vec<u8>>::from_sealed_bytes(x).map(|b| b.to_vec()).map_err(e))?;
+    judge("SignedMessage<Signature, Vec<u8>>::from_bytes", 64, x,
+        dryoc::sign::VecSignedMessage::from_bytes(x).map(|b| b.to_vec()).map_err(e))?;
+    judge("SignedMessage<Vec<u8>, Vec<u8>>::from_bytes", 64, x,
+        dryoc::sign::SignedMessage::<Vec<u8>, Vec<u8>>::from_bytes(x).map(|b| b.to_vec()).map_err(e))
+}
+
+/// len, elems: TryFrom<&[u8]> for fixed-length arrays and the from_slices constructors accept exactly `len` bytes.
+fn slice_exact_length(i: &Input) -> Outcome {
+    use dryoc::types::StackByteArray;
+    let (n, elems) = (i.num("len") as usize, i.get("elems"));
+    fn tf<const N: usize>(x: &[u8]) -> Result<Vec<u8>, String> {
+        StackByteArray::<N>::try_from(x).map(|a| a.to_vec()).map_err(|e| e.to_string())
+    }
+    let r = match n {
+        16 => tf::<16>(elems),
+        24 => tf::<24>(elems),
+        32 => tf::<32>(elems),
+        64 => tf::<64>(elems),
+        _ => panic!("{} unsupported array length {}", HARNESS, n),
+    };
+    fixed_len_verdict(&format!("StackByteArray<{}>::try_from(&[u8])", n), n, elems, r)?;
+    if n == 32 {
+        let good = [7u8; 32];
+        let r = dryoc::keypair::StackKeyPair::from_slices(elems, &good).map(|k| k.public_key.to_vec()).map_err(|e| e.to_string());
+        fixed_len_verdict("KeyPair::from_slices public key", 32, elems, r)?;
+        let r = dryoc::keypair::StackKeyPair::from_slices(&good, elems).map(|k| k.secret_key.to_vec()).map_err(|e| e.to_string());
+        fixed_len_verdict("KeyPair::from_slices secret key", 32, elems, r)?;
+    }
+    Ok(())
+}
+
 pub const C16: Registry = &[
+    ("from_bytes_min_length", from_bytes_min_length),
+    ("slice_exact_length", slice_exact_length),
     ("secretbox_bytes_roundtrip", secretbox_bytes),
     ("box_bytes_roundtrip", box_bytes),
     ("signedmessage_bytes_roundtrip", signed_bytes),
@@ -744,6 +807,16 @@ pub fn c16(ctx: &mut Ctx) -> Search {
             let inp = Input::new().u("len", n as u64).b("elems", &elems);
             ctx.run("json_seq_length", inp.clone())?;
             ctx.run("bincode_bytes_length", inp)?;
+        }
+    }
+    for count in 0..=130usize {
+        let x: Vec<u8> = (0..count).map(|j| (j as u8).wrapping_mul(7).wrapping_add(3)).collect();
+        ctx.run("from_bytes_min_length", Input::new().b("x", &x))?;
+    }
+    for n in [16usize, 24, 32, 64] {
+        for count in 0..=2 * n {
+            let elems: Vec<u8> = (0..count).map(|j| (j as u8).wrapping_add(1)).collect();
+            ctx.run("slice_exact_length", Input::new().u("len", n as u64).b("elems", &elems))?;
         }
     }
     for count in 0..=32usize {
